@@ -121,7 +121,10 @@ PROPS = {
         facts=["bridge_loop", "bridge_conns", "stream_first_byte", "stream_close", "stream_readfrom_copy", "stream_quic_adapter", "unreach_dial_cancel"],
         trusted=["quic-go: reliable, ordered delivery with retransmission over lossy, duplicating, reordering datagram links is the "
                  "library's; it is exercised on every run (1..4 hops, loss up to 8 %, duplication, delays up to 30 ms, a cut of the "
-                 "active path with a dearer alternative) but not modelled — the theorems are about Receptor's own relay loop",
+                 "active path with a dearer alternative) but not modelled — the theorems are about Receptor's own relay loop and "
+                 "stream end points, and assume of a QUIC stream only the contract `Delivers` (Model/StreamEnd.lean): reads return the "
+                 "written bytes in order in chunks of any sizes, each read returns at least one byte or the end of the stream, and the "
+                 "end may come together with the last bytes",
                  "the links of the harness are in-memory backends (BackendSession) with seeded impairments",
                  "the `connect` command and the TCP/Unix proxy services are represented by utils.BridgeConns between the mesh "
                  "connection and a Unix socket pair (the call they make)"],
